@@ -503,6 +503,12 @@ func specParse(n *Node, cfg SpecCfg, in any, dst reflect.Value, path string, loc
 				return
 			}
 			specParse(n.Elem, cfg, s, dst, path, loc, out)
+		case "ptrnum":
+			if v, err := strconv.Atoi(strings.TrimSpace(s)); err == nil {
+				specParse(n.Elem, cfg, v, dst, path, loc, out) // a pointer to 0 is a present 0
+			} else {
+				specParse(n.Elem, cfg, nil, dst, path, loc, out)
+			}
 		case "ptr":
 			// a pointer result is looked through; a nil pointer is no value at all
 			if strings.Contains(s, "none") {
